@@ -642,17 +642,29 @@ func (r rlocker) Unlock() { r.m.RUnlock() }
 type Once struct {
 	m    Mutex
 	done uint32
+	g    int64 // run generation in which f ran (0: outside any simulated run)
 }
 
-// Do calls f once.
+// Do calls f once. Every simulated run stands for a process of its own: what a
+// Once started in an earlier run (resident goroutines, channels) ended with
+// that run's bubble, so a Once completed inside an earlier run counts as not
+// done. One completed outside any run (package initialisation) stays done.
 func (o *Once) Do(f func()) {
-	if atomic.LoadUint32(&o.done) == 1 {
+	simulated := atomic.LoadInt32(&on) != 0 && current() != nil
+	g := int64(0)
+	if simulated {
+		g = atomic.LoadInt64(&gen)
+	}
+	if atomic.LoadUint32(&o.done) == 1 && (atomic.LoadInt64(&o.g) == 0 || atomic.LoadInt64(&o.g) == g) {
 		return
 	}
 	o.m.Lock()
 	defer o.m.Unlock()
-	if o.done == 0 {
-		defer atomic.StoreUint32(&o.done, 1)
+	if o.done == 0 || (o.g != 0 && o.g != g) {
+		defer func() {
+			atomic.StoreInt64(&o.g, g)
+			atomic.StoreUint32(&o.done, 1)
+		}()
 		f()
 	}
 }
